@@ -206,6 +206,117 @@ def flag_loops(facts, body, it):
     return out
 
 
+def _fwd(it, starts, stop):
+    """Blocks reachable from `starts` over normal edges; blocks in `stop` are entered but not expanded."""
+    seen, stack = set(), list(starts)
+    while stack:
+        x = stack.pop()
+        if x in seen:
+            continue
+        seen.add(x)
+        if x in stop:
+            continue
+        stack.extend(it.succs.get(x, []))
+    return seen
+
+
+def _bwd(it, start, stop):
+    seen, stack = {start}, list(it.preds.get(start, []))
+    while stack:
+        x = stack.pop()
+        if x in seen:
+            continue
+        seen.add(x)
+        if x in stop:
+            continue
+        stack.extend(it.preds.get(x, []))
+    return seen
+
+
+def loop_quant_of_local(facts, body, it, local, use_bb):
+    """A boolean local that says whether SOME iteration of one loop reached a given site, read at block use_bb after
+    the loop.  Two spellings, both decided on the CFG alone:
+      flag form    `let mut f = a; for x in S { .. if P(x) { f = b; [break] } .. }  .. f ..`
+      return form  `for x in S { if P(x) { r = b; goto out } }  r = a;  out: .. r ..`   (an early `return b` of an inlined helper,
+                   or of the function itself when use_bb is its return block)
+    Every definition of the local is one of the two constants; those inside the loop all write b, the others a; no path
+    from the loop to the use overwrites a b written in the loop, and nothing leaves the loop early before such a write.
+    ->  dict(loop, sites, b, ..) with  value(local at use_bb) = b  iff  exists item of loop.src: its iteration reaches a site."""
+    LOOPQ = facts.__dict__.setdefault('_loopq', {})
+    key = (body.uid, getattr(facts, 'view', None), local, use_bb)
+    if key in LOOPQ:
+        return LOOPQ[key]
+    LOOPQ[key] = None
+    defs = []
+    for bi in it.rpo:
+        blk = body.blocks[bi]
+        for s_ in blk['stmts']:
+            if s_['k'] == 'assign':
+                rv = s_['rv']
+                if rv.get('k') in ('ref', 'rawptr') and rv.get('mut') and rv['place']['local'] == local:
+                    return None
+                if s_['place']['local'] == local:
+                    if s_['place']['proj'] or rv['k'] != 'use' or rv['op']['k'] != 'const' or rv['op'].get('val') not in (0, 1):
+                        return None
+                    defs.append((bi, rv['op']['val']))
+        t = blk['term']
+        if t['k'] == 'call' and t['dest']['local'] == local:
+            return None
+    if local == 0 or local > body.arg_count:
+        pass
+    else:
+        return None     # a parameter
+    best = None
+    for lp in loops_of(it):
+        # the loop with its exit tails: blocks only an early exit leads to (`{ f = b; break }` is not part of the natural loop)
+        ee = set(lp.early_exits())
+        ext = set(lp.blocks) | set(x for x in it.rpo if x not in lp.blocks and (it.dom.get(x, set()) & ee))
+        if use_bb in ext or lp.head not in it.dom.get(use_bb, ()):
+            continue
+        B = [(b, v) for b, v in defs if b in ext]
+        A = [(b, v) for b, v in defs if b not in ext]
+        if not A or not B or len(set(v for _, v in B)) != 1 or len(set(v for _, v in A)) != 1 or A[0][1] == B[0][1]:
+            continue
+        if best is None or len(lp.blocks) < len(best[0].blocks):
+            best = (lp, A, B, ext)
+    if best is None:
+        return None
+    lp, A, B, ext = best
+    a_blocks, sites = set(b for b, _ in A), sorted(set(b for b, _ in B))
+    exits = sorted(set(y for x in ext for y in it.succs.get(x, []) if y not in ext))
+    # blocks on a first-arrival path from the loop's exits to the use that does not go round through the loop head again
+    on_path = _fwd(it, exits, {lp.head, use_bb}) & _bwd(it, use_bb, {lp.head})
+    if use_bb not in on_path:
+        return None
+    sw = it.switches[lp.sw]
+    normal = [tb for val, tb in sw.targets if val == 0] or [sw.otherwise]
+    normal = [x for x in normal if x not in ext]
+    if all(b in it.dom[lp.head] for b in a_blocks):
+        form = 'flag'
+        if a_blocks & on_path:
+            return None
+    else:
+        form = 'return'
+        if any(b in it.dom[lp.head] for b in a_blocks) or not normal:
+            return None
+        # the normal exit always re-writes a before the use ...
+        if use_bb in _fwd(it, [x for x in normal if x not in a_blocks], a_blocks | {lp.head}) - a_blocks or use_bb in a_blocks:
+            return None
+        # ... and a site leaves the loop for good, reaching the use without passing such a write
+        for sb in sites:
+            after = _fwd(it, it.succs.get(sb, []), {lp.head, use_bb})
+            if lp.head in after or (after & a_blocks & on_path):
+                return None
+    # nothing else cuts the iteration short on the way to the use: an early exit that can reach the use comes after a site
+    no_site = _fwd(it, [lp.start], set(sites) | {lp.head}) - set(sites) - {lp.head}
+    for x in no_site:
+        if x not in ext and use_bb in _fwd(it, [x], {lp.head, use_bb}):
+            return None
+    d = {'key': key, 'body': body, 'loop': lp, 'sites': sites, 'b': B[0][1], 'local': local, 'use_bb': use_bb, 'form': form}
+    LOOPQ[key] = d
+    return d
+
+
 _WRAP = ('into_iter', 'iter', 'iter_mut', 'drain', 'deref', 'deref_mut', 'as_slice', 'as_mut_slice', 'copied', 'cloned',
          'as_ref', 'borrow', 'into_values', 'values', 'keys', 'into_keys')
 
@@ -252,6 +363,57 @@ def fills_of(it):
         if best is not None:
             out.append(Fill(best, 'L%d' % a0.loc[0][1], bb, [a.val for a in c.args[1:]]))
     return out
+
+
+EMPTY_INITS = ('new', 'default', 'with_capacity', 'with_hasher', 'with_capacity_and_hasher')
+
+
+def loop_collected(facts, body, it, t, conditional=False):
+    """t is a local collection that starts empty and is filled by exactly one insertion in every iteration of one
+    complete loop (no early exit, nothing else touches the collection): the (loop, inserted values) of that fill,
+    i.e. the statement-level spelling of `loop.src.map(|item| values).collect()`; None otherwise."""
+    while t[0] == 'at':
+        t = t[2]
+    if t[0] != 'lv' or not t[2].startswith('L'):
+        return None
+    head, local, init = t[1], t[2], drop_lv(t[3])
+    if not (init[0] == 'call' and call_name(init) in EMPTY_INITS and not any(a[0] not in ('const',) for a in init[2])):
+        return None
+    root = ('L', int(local[1:]))
+    fills = [f for f in fills_of(it) if f.local == local]
+    if len(fills) != 1 or fills[0].loop.head != head or fills[0].loop.early_exits():
+        return None
+    f = fills[0]
+    for (bb, ai), w in it.muts.items():
+        if w.loc[0] == root and bb != f.bb:
+            return None
+    for w in it.writes.values():
+        if w.loc[0] == root and not (w.val[0] == 'lv' or drop_lv(w.val) == init):
+            return None
+    if conditional:     # a filtered collect: the caller decides under which conditions the fill is reached
+        return f.loop, f.vals, f.bb
+    rc = Reach(facts, body, Evaluator(facts))
+    if not f.loop.must(rc, [f.bb]):
+        return None
+    return f.loop, f.vals
+
+
+def collect_source(facts, body, it, t):
+    """The iterator whose items make up the collection t, when every item goes in unchanged (up to clone/copy):
+    `src.collect()` as written, or a local filled by one insert of the item per iteration of a complete loop over src."""
+    v = drop_lv(t)
+    if is_call(v, 'collect') and v[2]:
+        return v[2][0]
+    lc = loop_collected(facts, body, it, t)
+    if lc is None or len(lc[1]) != 1:
+        return None
+    x = drop_lv(lc[1][0])
+    while is_call(x, ('clone', 'cloned', 'copied', 'to_owned', 'deref')) and len(x[2]) == 1:
+        x = drop_lv(x[2][0])
+    src = as_item(versionless(x))
+    if src is None or versionless(src) != versionless(lc[0].src):
+        return None
+    return lc[0].src
 
 
 def peel(t):
